@@ -85,6 +85,32 @@ func EncodeMessage(msgType uint8, payload []byte) []byte {
 	return result
 }
 
+// SplitMessage splits an encoded stdin/stdout/stderr message that is longer
+// than maxLen into consecutive messages of the same type, each at most maxLen
+// bytes long and together carrying the original payload in order. Messages
+// that already fit, and message types whose payload is not a byte stream, are
+// returned unchanged.
+func SplitMessage(data []byte, maxLen int) [][]byte {
+	if len(data) <= maxLen || maxLen < 2 {
+		return [][]byte{data}
+	}
+	msgType := data[0]
+	if msgType != MsgStdin && msgType != MsgStdout && msgType != MsgStderr {
+		return [][]byte{data}
+	}
+	payload := data[1:]
+	var parts [][]byte
+	for offset := 0; offset < len(payload); {
+		end := offset + maxLen - 1
+		if end > len(payload) {
+			end = len(payload)
+		}
+		parts = append(parts, EncodeMessage(msgType, payload[offset:end]))
+		offset = end
+	}
+	return parts
+}
+
 // DecodeMessage decodes a message, returning the type and payload.
 func DecodeMessage(data []byte) (msgType uint8, payload []byte, err error) {
 	if len(data) < 1 {
